@@ -73,12 +73,19 @@ pub fn stderr_since_mark() -> String {
     }
 }
 
+/// called (outside a case) right before the process really exits; the libFuzzer target uses it
+/// to write its final statistics, because this `exit` skips atexit handlers
+pub static AT_EXIT: std::sync::OnceLock<fn()> = std::sync::OnceLock::new();
+
 #[no_mangle]
 pub extern "C-unwind" fn exit(code: c_int) -> ! {
     let in_case = IN_CASE.try_with(|c| c.get()).unwrap_or(false);
     if in_case {
         IN_CASE.with(|c| c.set(false));
         std::panic::panic_any(ExitTrap { code, stderr: stderr_since_mark() });
+    }
+    if let Some(f) = AT_EXIT.get() {
+        f();
     }
     unsafe { libc::_exit(code) }
 }
